@@ -32,23 +32,29 @@ HOST = "10.0.0.1"
 class Sub:
     """A recording subscriber (async callable)."""
 
-    def __init__(self, world, name: str, raises: bool = False, yields: int = 0, inside=None, replies=None) -> None:
+    def __init__(self, world, name: str, raises: bool = False, yields: int = 0, inside=None, replies=None, inside_late: bool = False) -> None:
         self.world = world
         self.name = name
         self.raises = raises
         self.yields = yields
         self.inside = list(inside or [])  # subscribe / unsubscribe steps performed from within the first callback
+        self.inside_late = inside_late  # ... after the callback's own awaits instead of right on entry
+        self.after = (0, 0.0)  # (loop turns, seconds) spent inside the callback after a reply
         self.replies = list(replies or [])  # message descriptions sent (one per call) from inside the callback, as the API classes do
 
     async def __call__(self, *args, **kw):
         self.world.trace.add("sub.call", k=self.name, args=tuple(_p(a) for a in args))
-        if self.inside:
+        if self.inside and not self.inside_late:
             steps, self.inside = self.inside, []
             for st in steps:
                 self.world.op_user_subscribe(dict(st, inside=True))
         try:
             for _ in range(self.yields):
                 await asyncio.sleep(0)
+            if self.inside and self.inside_late:
+                steps, self.inside = self.inside, []
+                for st in steps:
+                    self.world.op_user_subscribe(dict(st, inside=True))
         except asyncio.CancelledError:
             # a subscriber that was called and then cancelled at an await of its own never got to act on the update
             if not getattr(self.world, "tearing_down", False):
@@ -67,6 +73,12 @@ class Sub:
                 raise
             except Exception as exc:  # noqa: BLE001 - recorded, the subscriber swallows it (as a careful application would)
                 self.world.trace.add("sub.reply_raised", k=self.name, e=type(exc).__name__)
+            # ... and goes on working for a while after its reply (as the API classes do: update state, notify their own
+            # subscribers), possibly for longer than a reconnection takes
+            for _ in range(self.after[0]):
+                await asyncio.sleep(0)
+            if self.after[1]:
+                await asyncio.sleep(self.after[1])
         if self.raises:
             self.world.trace.count("probe.subscriber_raised")
             raise RuntimeError(f"subscriber {self.name} fails")
@@ -466,7 +478,7 @@ class World:
         name = step["name"]
         sub = self.subs.get(name)
         if sub is None:
-            sub = self.subs[name] = Sub(self, name, raises=step.get("raises", False), yields=step.get("sub_yields", 0), inside=step.get("then"))
+            sub = self.subs[name] = Sub(self, name, raises=step.get("raises", False), yields=step.get("sub_yields", 0), inside=step.get("then"), inside_late=step.get("then_late", False))
         obj = self.resolve(step["target"])
         if obj is None:
             self.trace.add("user.subscribe_skipped", k=name)
@@ -482,6 +494,7 @@ class World:
         """Extra message subscriber on the bare socket (may raise, may yield)."""
         name = step.get("name", "extra")
         sub = Sub(self, name, raises=step.get("raises", False), yields=step.get("sub_yields", 0), replies=step.get("replies"))
+        sub.after = (int(step.get("after_yields", 0)), float(step.get("after_sleep", 0.0)))
         self.subs[name] = sub
         self.sock.subscribe_on_message_received(sub)
 
@@ -567,6 +580,15 @@ class World:
                 key = "ac" if what == "ac" else ("group" if self.sc["gen"] == 4 else "zone")
                 self.console.foreign[what][int(i)] = dict(st, **{key: int(i)})
         self.console.publish(step["what"], step.get("ids"))
+
+    def op_console_report_foreign(self, step) -> None:
+        """From now on the console's full status answers also list records of entities the installation does not contain
+        (a group enabled on the console but never named, say), in front of the known ones."""
+        for what, recs in (step.get("foreign") or {}).items():
+            for i, st in recs.items():
+                key = "ac" if what == "ac" else ("group" if self.sc["gen"] == 4 else "zone")
+                self.console.foreign[what][int(i)] = dict(st, **{key: int(i)})
+        self.console.report_foreign = True
 
     def op_console_raw(self, step) -> None:
         link = self.console.current_link()
